@@ -65,7 +65,7 @@ func vScenarioC19(rc *runCtx) {
 	w := rc.w
 	upload := tp.Bool("c19.upload", 500)
 	helperKind := []string{"normal", "exit-nonzero", "exit-at-once", "silent", "late-writer", "missing"}[tp.Pick("c19.helper", 4, 2, 2, 2, 1, 2)]
-	serverKind := []string{"finishes", "cancels-early", "cancels-late", "keeps-sending", "goes-quiet"}[tp.Pick("c19.server", 4, 2, 2, 2, 2)]
+	serverKind := []string{"finishes", "cancels-early", "cancels-late", "keeps-sending", "goes-quiet"}[tp.Pick("c19.server", 4, 3, 2, 2, 2)]
 	veto := tp.Pick("c19.veto", 6, 1, 1) // 0 genuine header, 1 header + cancel sequence, 2 header + cannot open
 	ctrlC := tp.Pick("c19.ctrlc", 3, 1, 1)
 	haveFiles := !upload || tp.Bool("c19.files", 800)
@@ -88,11 +88,15 @@ func vScenarioC19(rc *runCtx) {
 
 	var helper *vHelper
 	helperStarts := 0
+	var helperStartAt, cancelAt time.Duration = -1, -1
 	w.Exec = func(req *verifsim.ExecRequest) (verifsim.ExecChild, error) {
 		if req.Name != "rz" && req.Name != "sz" {
 			return nil, fmt.Errorf("exec: %q: executable file not found in $PATH", req.Name)
 		}
 		helperStarts++
+		if helperStartAt < 0 {
+			helperStartAt = w.Now()
+		}
 		if helperKind == "missing" {
 			return nil, fmt.Errorf("exec: %q: executable file not found in $PATH", req.Name)
 		}
@@ -188,8 +192,21 @@ func vScenarioC19(rc *runCtx) {
 		}
 		switch serverKind {
 		case "cancels-early":
-			verifsim.Sleep(time.Duration(tp.Draw("c19.early", 90)) * time.Millisecond)
-			down.Write(vZCancel)
+			// before the 100 ms the client waits for exactly this, while the chooser is open, or just after
+			ms := tp.Draw("c19.early", 95)
+			switch tp.Pick("c19.earlyslot", 2, 3, 1) {
+			case 1:
+				ms = 100 + tp.Draw("c19.choosing", 50)
+			case 2:
+				ms = 150 + tp.Draw("c19.juststarted", 70)
+			}
+			verifsim.Sleep(time.Duration(ms) * time.Millisecond)
+			cancelAt = w.Now()
+			if tp.Bool("c19.cannotopen", 300) {
+				down.Write([]byte("rz: cannot open /dev/tty\r\n"))
+			} else {
+				down.Write(vZCancel)
+			}
 		case "cancels-late":
 			verifsim.Sleep(time.Duration(150+tp.Draw("c19.latec", 600)) * time.Millisecond)
 			down.Write([]byte("zdata-1"))
@@ -288,6 +305,25 @@ func vScenarioC19(rc *runCtx) {
 			rc.violate("cancel", "C19:server-not-cancelled", "the session ended abnormally (helper %s, server %s, ctrl-c %d, files %v) but the server never received the cancel sequence; server got %s",
 				helperKind, serverKind, ctrlC, haveFiles, vQuote(upAll, 100))
 			return
+		}
+		// the server gave up before the helper was started (the chooser was still open): a helper started
+		// afterwards is told at once, and nothing it writes is typed into the shell the user is back in
+		if helper != nil && cancelAt >= 0 && helperStartAt > cancelAt+5*time.Millisecond {
+			rc.w.Probe("server-cancelled-while-choosing")
+			told := bytes.Contains(helper.gotIn, vZCancel[:10])
+			select {
+			case <-helper.killed:
+				told = true
+			default:
+			}
+			if !told {
+				rc.violate("cancel", "C19:late-helper-not-cancelled", "the server cancelled at %v, the %s helper was started at %v and was neither sent the cancel sequence nor killed (helper %s)", cancelAt, helper.name, helperStartAt, helperKind)
+				return
+			}
+			if bytes.Contains(upAll, []byte("helper-data-")) && helperKind == "late-writer" {
+				rc.violate("cancel", "C19:late-helper-output-typed", "the server cancelled at %v before the helper started at %v; what the helper wrote afterwards was typed into the user's shell: %s", cancelAt, helperStartAt, vQuote(upAll, 120))
+				return
+			}
 		}
 		if helper != nil && helperKind == "silent" && !bytes.Contains(helper.gotIn, vZCancel[:10]) {
 			select {
